@@ -34,3 +34,4 @@ def run(check: Check, repo: Repo, tier: str) -> None:
     K.enum_domain(check, repo)
     K.null_reject(check, repo)
     K.exact_int(check, repo)
+    K.float_exact(check, repo)
